@@ -25,18 +25,21 @@ Rep3 == { << >>, << A, COMMA, SEMI, SP >>, << QUOTE, BSL, A, BSL >> }
 \* second attribute from Rep5) 2 x (1 + 2224 + 2224 x 12) = 58 k; struct 3 links x <= 2 attributes x 4
 \* choices: 2 x 21 = 42 per link, 42 + 42^2 + 42^3 = 76 k x 2 nl = 152 k; fault <= 2 links x <= 2
 \* attributes x 5 choices: 31 + 31^2 = 1 k x 2 nl x 49 faults = 97 k
+\* value4: one link, ONE attribute, every value up to length 4 (C16's exhaustive bound): 4 681 values
+\* x 2 kinds x 2 targets x 2 nl = 37 k states
 Values1 == IF Mode = "value" THEN Strs(2)
+           ELSE IF Mode = "value4" THEN Strs(4)
            ELSE IF Mode = "value3" THEN Strs(3)
            ELSE Rep3
 Values2 == IF Mode = "value" THEN Strs(2) ELSE IF Mode = "value3" THEN Rep5 ELSE Values1
-Targets == IF Mode \in {"value", "value3"} THEN { << >>, << A, SEMI, LT, QUOTE, COMMA >> }
+Targets == IF Mode \in {"value", "value3", "value4"} THEN { << >>, << A, SEMI, LT, QUOTE, COMMA >> }
            ELSE IF Mode = "struct" THEN { << >>, << A, COMMA, SEMI, QUOTE, LT, SP >> }
            ELSE { << 47, A >> }
 Keys == { << 107 >> }
-Kinds == IF Mode \in {"value", "value3"} THEN { "attr", "quoted" } ELSE { "attr" }
+Kinds == IF Mode \in {"value", "value3", "value4"} THEN { "attr", "quoted" } ELSE { "attr" }
 U32s == IF Mode \in {"value", "value3"} THEN { << 48 >>, << 52, 48 >> } ELSE { << 52, 48 >> }
-MaxLinks == IF Mode \in {"value", "value3"} THEN 1 ELSE IF Mode = "struct" THEN 3 ELSE 2
-MaxAttrs == 2
+MaxLinks == IF Mode \in {"value", "value3", "value4"} THEN 1 ELSE IF Mode = "struct" THEN 3 ELSE 2
+MaxAttrs == IF Mode = "value4" THEN 1 ELSE 2
 NLs == IF Mode = "value3" THEN { FALSE } ELSE BOOLEAN
 MaxCalls == 24
 Faults == IF Mode = "fault"
